@@ -166,7 +166,9 @@ def params_dict(ps, assemblage=(0,), fractions=(1.0,), n_grains=None):
     d["gbm_mobility"] = float(ps["M"])
     d["gbs_threshold"] = float(ps["chi"])
     if n_grains is not None:
-        d["number_of_grains"] = int(n_grains)
+        # params["number_of_grains"] is only a default for constructing minerals; a Mineral
+        # carries its own n_grains.  The two deliberately differ for even grain counts.
+        d["number_of_grains"] = int(n_grains) if int(n_grains) % 2 else 3500
     return d
 
 
